@@ -477,6 +477,38 @@ def judge_c08(case, lab):
                 observe.describe(gv), observe.describe(rv)))
     # the specification's own value (covers derivatives, for which no unwrapped twin is built)
     _cmp_outcome(res, "overlay-spec", got, a["eval"])
+    # derivatives compose: two successive with_options / with_default_options calls that touch the
+    # same section are the recursive overlay of both (confectioner.mix, the pinned dependency)
+    if root["k"] == "ds":
+        from confectioner import mix
+
+        def nest(path, v):
+            d = v
+            for seg in reversed(path):
+                d = {seg: d}
+            return d
+
+        for path in a["mentions"]:
+            if len(path) < 2 or any(seg.isdigit() for seg in path):
+                continue
+            p1, p2 = nest(path, 901), nest(path[:-1] + ["VERIF_SIBLING"], 902)
+            for mode in ("with_options", "with_default_options"):
+                gd = _fresh(case, lab)
+                chained = getattr(getattr(gd.root, mode)(copy.deepcopy(p1)), mode)(copy.deepcopy(p2))
+                got2 = observe.call(lambda: chained.evaluate(copy.deepcopy(o)), lab)
+                # reference: the dataset WITHOUT its own pre-set / default options, under the overlay
+                #   defaults (dd [+ p1 + p2])  <  caller options  <  pre-set (q [+ p1 + p2])
+                q0, dd0 = dec(root["q"]), dec(root["dd"])
+                if mode == "with_options":
+                    q0 = mix(mix(q0, copy.deepcopy(p1)), copy.deepcopy(p2))
+                else:
+                    dd0 = mix(mix(dd0, copy.deepcopy(p1)), copy.deepcopy(p2))
+                eff = mix(mix(dd0, copy.deepcopy(o)), q0)
+                gr = _fresh(_unwrapped(case), lab)
+                ref2 = observe.call(lambda: gr.root.evaluate(eff), lab)
+                if not (got2.get("lazy") or ref2.get("lazy")) and not same_outcome(got2, ref2):
+                    res.bad("derivatives-compose", "%s(%s).%s(%s) under %s gives %s; the dataset under the overlaid options %s gives %s" % (
+                        mode, p1, mode, p2, o, observe.describe(got2), eff, observe.describe(ref2)))
     # (2) no call modifies the caller's dictionary or the pre-set dictionaries
     for what in ("validate", "keys", "explain"):
         fn = getattr(g.root, what)
@@ -530,6 +562,31 @@ def judge_c01_group(cases, lab):
                 res.bad("transparent", "after evaluating %s on the same graph, evaluate gives %s; a fresh copy gives %s" % (
                     hist[-4:], observe.describe(got), observe.describe(ref)))
             hist.append(o)
+    # derivatives of one dataset share its cache: siblings with different pre-set / default values of
+    # a key the dataset mentions, evaluated one after the other, each against a fresh graph
+    if cases[0]["nodes"][-1]["k"] == "ds":
+        def nest(path, v):
+            d = v
+            for seg in reversed(path):
+                d = {seg: d}
+            return d
+
+        for path in cases[0]["a"]["mentions"]:
+            if any(seg.isdigit() for seg in path):
+                continue
+            for mode in ("with_default_options", "with_options"):
+                for c in cases[:6]:
+                    o = dec(c["a"]["o"])
+                    g = _fresh(c, lab)
+                    sib = [getattr(g.root, mode)(nest(path, 900 + k)) for k in (1, 2)]
+                    got = [observe.call(lambda s=s: s.evaluate(copy.deepcopy(o)), lab) for s in sib]
+                    g2 = _fresh(c, lab)
+                    ref2 = observe.call(lambda: getattr(g2.root, mode)(nest(path, 902)).evaluate(copy.deepcopy(o)), lab)
+                    if got[1].get("lazy") or ref2.get("lazy"):
+                        continue
+                    if not same_outcome(got[1], ref2):
+                        out[id(c)].bad("sibling-derivatives", "%s({%s: 902}) evaluated after its sibling ({%s: 901}) under %s gives %s; on a fresh graph %s" % (
+                            mode, ".".join(path), ".".join(path), o, observe.describe(got[1]), observe.describe(ref2)))
     return [(c, out[id(c)]) for c in cases]
 
 
@@ -591,7 +648,32 @@ def judge_c02_group(cases, lab):
             if not same_outcome(first, again):
                 res.bad("memo-value-" + name, "re-evaluation (%s) returned %s instead of %s" % (
                     name, observe.describe(again), observe.describe(first)))
+    # effects attached after the dataset has been used run for every later body execution
+    root_nd = nodes[-1]
+    if root_nd["k"] == "ds" and len(cases) >= 2:
+        g = _fresh(cases[0], lab)
+        first = observe.call(lambda: g.root.evaluate(copy.deepcopy(dec(cases[0]["a"]["o"]))), lab)
+        if not first.get("lazy"):
+            late = []
+            g.root.add_effects(lambda v, _l=late: _l.append(v))
+            rid = len(nodes)
+            for c in cases[1:]:
+                o2 = dec(c["a"]["o"])
+                n0, l0 = len(g.log), len(late)
+                r = observe.call(lambda: g.root.evaluate(copy.deepcopy(o2)), lab)
+                ran = [e for e in g.log[n0:] if e[0] in ("callback", "body") and e[3] == rid]
+                root_ran = len([e for e in ran if e[0] == ("callback" if root_nd["cb"] else "body")])
+                if r["ok"] and (root_nd["cb"] or root_nd["dflt"]) and root_ran != len(late) - l0 and not EFFECTS_OFF(o2):
+                    out[id(c)].bad("late-effect", "an effect added after the first evaluation ran %d times while the dataset's body ran %d times" % (
+                        len(late) - l0, root_ran))
     return [(c, out[id(c)]) for c in cases]
+
+
+def EFFECTS_OFF(o):
+    try:
+        return bool(o["LABREA"]["EFFECTS"]["DISABLED"])
+    except Exception:  # noqa
+        return False
 
 
 def _with_unmentioned(o, mentions):
@@ -896,6 +978,11 @@ def judge_c16_group(cases, lab):
 
 
 # -- C19 ---------------------------------------------------------------------------------------
+def attr_name(n):
+    """Member "y" is declared as `_y`: a single leading underscore is an ordinary member name."""
+    return "_y" if n == "y" else n
+
+
 def _make_class(case, g, lab):
     root = case["nodes"][-1]
     names = root["names"]
@@ -910,11 +997,11 @@ def _make_class(case, g, lab):
         Base({})
     except Exception:  # noqa
         pass
-    ns = {"__annotations__": {n: object for n in names[1:]}}
+    ns = {"__annotations__": {attr_name(n): object for n in names[1:]}}
     for n, m in zip(names[1:], members[1:]):
         # a constant member is given as a plain value, everything else as the evaluatable
         nd = case["nodes"][root["ms"][names.index(n)] - 1]
-        ns[n] = dec(nd["v"]) if nd["k"] == "val" else m
+        ns[attr_name(n)] = dec(nd["v"]) if nd["k"] == "val" else m
     ns["__annotations__"]["konst"] = int
     ns["konst"] = 42
     n_used = len(g.log)
@@ -969,8 +1056,9 @@ def judge_c19_group(cases, lab):
         obj = inst["v"]
         expd = dec(exp["v"])
         for n in names:
-            if not strict_eq(getattr(obj, n, "<missing>"), expd[n]):
-                res.bad("attribute", "attribute %s = %s, the member evaluates to %s" % (n, show(getattr(obj, n, "<missing>")), show(expd[n])))
+            if not strict_eq(getattr(obj, attr_name(n), "<missing>"), expd[n]):
+                res.bad("attribute", "attribute %s = %s, the member evaluates to %s" % (
+                    attr_name(n), show(getattr(obj, attr_name(n), "<missing>")), show(expd[n])))
         if getattr(obj, "konst", None) != 42:
             res.bad("attribute", "plain member konst = %r, expected the constant 42" % (getattr(obj, "konst", None),))
         if a["keys"]["ok"]:
@@ -1323,15 +1411,16 @@ def judge_c07(case, lab):
     a = case["a"]
     hist = list(a["hist"]) + [{"a": "Observe", "o": a["o"], "eval": a["eval"]}]
     late = [h for h in hist if h["a"] == "Register"]
-    tabs0 = []
-    for t, entries in enumerate(case["tabs"], start=1):
-        keep = []
-        for e in entries:
-            owner_late = any(canon_val(h["alias"]) == canon_val(e["v"]) and h["impl"] == e["n"] and
-                             case["nodes"][h["d"] - 1].get("tab") == t for h in late)
-            if not owner_late:
-                keep.append(e)
-        tabs0.append(keep)
+    # the tables before the first call: undo the registrations made between calls, last first
+    tabs0 = [list(entries) for entries in case["tabs"]]
+    for h in reversed(late):
+        t = case["nodes"][h["d"] - 1]["tab"] - 1
+        entries = tabs0[t]
+        idx = [i for i, e in enumerate(entries) if canon_val(e["v"]) == canon_val(h["alias"])]
+        if h["prev"]:
+            entries[idx[0]] = {"v": h["alias"], "n": h["prev"]}
+        else:
+            del entries[idx[0]]
     if not any(nd["k"] == "ds" and nd["disp"] for nd in case["nodes"]):
         return res
     g = build.Built(lab, case["nodes"], tabs0, raises=a.get("raises", ()))
